@@ -139,6 +139,7 @@ def install_tokenizers_standin():
 
 def run_script(sc, sudachipy, dic=None, point=None, pretoks=None):
     stats = {"ops": 0, "values": 0, "skipped": 0, "stale_touches": 0, "per_call_mode": 0, "out_reuse": 0}
+    own_dic = dic is None
     if dic is None:
         dic = sudachipy.Dictionary(config=sc["config"], resource_dir=sc["dir"])
     toks = []
@@ -372,6 +373,23 @@ def run_script(sc, sudachipy, dic=None, point=None, pretoks=None):
                     if not any(here[:3] == (x.begin(), x.end(), x.word_id()) for x in lst):
                         raise Mismatch("result-differs-from-core", "iterator-yielded-foreign-morpheme", {"yielded": got, "len": len(lst)})
                 stats["values"] += got
+            elif kind == "close_then_use":
+                if not own_dic:
+                    stats["skipped"] += 1
+                    continue
+                tok, tspec = toks[op["t"]]
+                dic.close()
+                uses = [lambda: tok.tokenize("あ"), lambda: dic.lookup("あ"), lambda: dic.pos_of(0), lambda: dic.create(),
+                        lambda: dic.pos_matcher([("名詞",)]), lambda: dic.pre_tokenizer(), lambda: repr(dic), lambda: tok.mode, lambda: dic.close()]
+                for s_ in slots:
+                    if s_ is not None:
+                        uses.append(lambda l=s_[0]: (str(l), len(l), [m.surface() for m in l], [m.part_of_speech() for m in l]))
+                for u in uses:
+                    try:
+                        u()
+                    except BaseException:  # noqa: any exception is fine, the interpreter must survive
+                        pass
+                stats["values"] += len(uses)
             elif kind == "misuse":
                 tok, tspec = toks[op["t"]]
                 try:
